@@ -66,11 +66,20 @@ def rule_policies(ctx: Ctx) -> None:
             bad = []
             for st, _ in stmts_matching(ta, f"self._last_leak_time = {nowp}"):
                 n = node_of(ff.cfg, st)
-                if not (ff.holds_at(n, Fact("is", "self._last_leak_time", "None")) or ff.holds_at(n, Fact("le", "self._leak_interval", "elapsed"))):
+                okst = ff.holds_at(n, Fact("is", "self._last_leak_time", "None")) or ff.holds_at(n, Fact("le", "self._leak_interval", "elapsed"))
+                if not okst:
+                    # the two admitting cases written as one `if A or B:` around the store: every disjunct is one of them
+                    encl = [i_ for i_ in walk_stmts(ta.node.body) if isinstance(i_, ast.If) and any(st is y for y in i_.body)]
+                    if encl and isinstance(encl[-1].test, ast.BoolOp) and isinstance(encl[-1].test.op, ast.Or):
+                        sd_ta = single_defs(ta)
+                        okst = all({f_.sig for f_ in atoms(expand(d_, sd_ta), True)} in ({("is", "self._last_leak_time", "None")}, {("le", "self._leak_interval", f"({nowp} - self._last_leak_time).to_seconds()")})
+                                   for d_ in encl[-1].test.values)
+                if not okst:
                     bad.append(norm_stmt(st))
                 takes.append(st)
             el = stmts_matching(ta, "elapsed = _E_")
-            okel = len(el) == 1 and unparse(el[0][1]["_E_"]).replace(" ", "") == f"({nowp}-self._last_leak_time).to_seconds()"
+            okel = (len(el) == 1 and unparse(el[0][1]["_E_"]).replace(" ", "") == f"({nowp}-self._last_leak_time).to_seconds()") or \
+                   (not el and f"({nowp}-self._last_leak_time).to_seconds()" in unparse(ta.node).replace(" ", ""))
             ctx.ob("C10-1", "G1", ta, "leak admitted only after a full interval", not bad and okel,
                    "LeakyBucketPolicy admits (and restarts the interval) only on first use or when elapsed >= leak interval, elapsed measured from the last admission")
         need(takes, f"C10-1: no admitting statement recognised in {c.name}.try_acquire")
@@ -149,6 +158,23 @@ def rule_policies(ctx: Ctx) -> None:
         # ---- C10-2: time_until_available return discipline
         admit = _admit_test(ta)
         admit_facts = [f for f in atoms(admit, True)] if admit is not None else []
+        admit_alts = [admit_facts]
+        if admit is not None and isinstance(admit, ast.BoolOp) and isinstance(admit.op, ast.Or):
+            # `A or B`: the predicate holds when the atoms of one disjunct hold; the disjuncts are compared in the vocabulary of
+            # time_until_available (an expression that function binds to a local is replaced by that local)
+            sd_ta, sd_tu = single_defs(ta), single_defs(tu)
+            back = {unparse(v_).replace(" ", ""): k_ for k_, v_ in sd_tu.items() if isinstance(v_, ast.AST)}
+
+            def contract(e_):
+                class C_(ast.NodeTransformer):
+                    def visit(self, n_):
+                        if isinstance(n_, ast.expr) and unparse(n_).replace(" ", "") in back:
+                            return ast.Name(id=back[unparse(n_).replace(" ", "")], ctx=ast.Load())
+                        return super().visit(n_)
+                import copy as _c
+                return C_().visit(_c.deepcopy(e_))
+            admit_alts = [[f for f in atoms(contract(expand(d_, sd_ta)), True)] for d_ in admit.values]
+            admit_facts = admit_alts[0] if len(admit_alts) == 1 else admit_facts
         # post-condition of the refresh: attributes it leaves non-None
         nonnull = set()
         if refresh:
@@ -190,7 +216,7 @@ def rule_policies(ctx: Ctx) -> None:
             if is_zero:
                 z += 1
                 first_use = any(f[0] == "is" and f[2] == "None" for f in have)
-                if not all(implies(have, f) for f in admit_facts) and not (first_use and _first_use_admits(ta)):
+                if not any(all(implies(have, f) for f in alt) for alt in admit_alts) and not (first_use and _first_use_admits(ta)):
                     bad.append(f"returns ZERO on path [{p.describe()}] without the admit predicate `{unparse(admit)}` holding — an immediate acquire can fail")
             else:
                 nz += 1
@@ -203,7 +229,7 @@ def rule_policies(ctx: Ctx) -> None:
                         ok = True
                 if not ok:
                     bad.append(f"returns `{unparse(v)}` on path [{p.describe()}] which is not provably non-zero — a drain can spin at one instant")
-                if all(implies(have, f) for f in admit_facts) and admit_facts:
+                if any(alt and all(implies(have, f) for f in alt) for alt in admit_alts):
                     bad.append(f"returns a wait on path [{p.describe()}] although the admit predicate holds")
         need(z and nz, f"C10-2: {c.name}.time_until_available lacks zero/non-zero returns ({z}/{nz})")
         ctx.ob("C10-2", "G4", tu, "zero ⇔ would admit; otherwise non-zero", not bad,
